@@ -20,7 +20,7 @@ from engine import trees as T
 ID = "C02"
 LEVEL = "exploration"
 WORKERS = {"quick": 12, "thorough": 16}
-RULE = ("all rooted trees of order <= p for each tableau (complete); one-step conformance of every stepping kernel x RHS menu x step sizes; "
+RULE = ("one integrator instance reused over every ordered pair of problems (A, B, A) vs exact solutions and vs a new instance; all rooted trees of order <= p for each tableau (complete); one-step conformance of every stepping kernel x RHS menu x step sizes; "
         "global-error ladders (RHS menu x orders 4,6,8 x 4-5 rungs) and tolerance ladders (RHS menu x orders 5,8 x 5 tolerances x 3 output grids); "
         "non-trivial = ladder has >= 2 rungs above the rounding floor / tree of order >= 2; distinct = (tableau, tree) and (rhs, order, grid) tuples")
 ASSUMPTIONS = [
@@ -572,7 +572,53 @@ def k_adaptive_mixed(params):
     return res(evals=n, nontrivial=n, viol=viol[:3], sample={"order": order, "rows(mag,rtol,atol,err,scale)": rows[:4]})
 
 
-KINDS = {"adaptive_mixed": k_adaptive_mixed, "trees": k_trees, "trees_embedded": k_trees_embedded, "step": k_step, "fixed_ladder": k_fixed_ladder, "propagate_ladder": k_propagate_ladder,
+def k_reuse(params):
+    """one integrator instance used for problem A, then problem B (other dimension / other kind of system), then A again, for every ordered
+    pair (A, B): each result must be the exact solution within the bound of that problem and bit-identical to what a newly made instance returns"""
+    rk = _L["rk"]
+    from engine import hamref
+    from scipy.integrate import solve_ivp
+
+    kind, order = params["integrator"], params["order"]
+    make = (lambda: rk.RungeKutta(order=order)) if kind == "fixed" else (lambda: rk.AdaptiveRK(order=order, rtol=params["tol"], atol=params["tol"]))
+    probs = {}
+    for name in ("rot", "euler", "riccati"):
+        f, dim, span = PROBLEMS[name]
+        y0 = np.array(_y0s(name, params["seed"])[0], dtype=float)
+        t = _tgrid(span, 160, "uniform")
+        probs[name] = (_system(name), y0, t, np.array([_exact(name, y0, tt) for tt in t]))
+    ph = hamref.ham_menu()["cubic_mixed"]
+    y0h = np.array([0.2, -0.3, 0.25, 0.1, 0.3, -0.2])
+    th = _tgrid(2.0, 160, "uniform")
+    probs["ham"] = (hamref.make_hamsys(ph), y0h, th, solve_ivp(hamref.grad_py(ph), (0, 2.0), y0h, method="DOP853", rtol=1e-13, atol=1e-14, t_eval=th).y.T)
+    bound = {("fixed", 4): 2e-6, ("fixed", 6): 1e-8, ("fixed", 8): 1e-9}.get((kind, order), KTOL * params.get("tol", 0.0) * 3.0 + 1e-10)
+    viol = {}
+    n = nt = 0
+    fresh = {nm: np.array(make().integrate(sy, y0, t).states) for nm, (sy, y0, t, ex) in probs.items()}
+    for a in probs:
+        for b in probs:
+            if a == b:
+                continue
+            inst = make()
+            seq = [a, b, a]
+            for k, nm in enumerate(seq):
+                sy, y0, t, ex = probs[nm]
+                st = np.array(inst.integrate(sy, y0, t).states)
+                n += 1
+                nt += 1 if k else 0
+                tag = "%s(order=%d) instance used for %s, call %d" % ("RungeKutta" if kind == "fixed" else "AdaptiveRK", order, seq, k + 1)
+                e = float(np.max(np.abs(st - ex)))
+                if st.shape != ex.shape or e > bound * (1.0 + float(np.max(np.abs(ex)))):
+                    key = "reuse/accuracy/%s%d" % (kind, order)
+                    viol.setdefault(key, violation(key, "error %.3e against the exact solution of %s exceeds %.1e [%s]" % (e, nm, bound, tag), e, bound))
+                if st.shape != fresh[nm].shape or not np.array_equal(st, fresh[nm]):
+                    key = "reuse/differs_from_new_instance/%s%d" % (kind, order)
+                    d = float(np.max(np.abs(st - fresh[nm]))) if st.shape == fresh[nm].shape else float("inf")
+                    viol.setdefault(key, violation(key, "result for %s differs by %.3e from the result of a newly made instance [%s]" % (nm, d, tag), d, 0.0))
+    return res(evals=n, nontrivial=nt, viol=list(viol.values()), sample={"integrator": kind, "order": order, "calls": n})
+
+
+KINDS = {"reuse": k_reuse, "adaptive_mixed": k_adaptive_mixed, "trees": k_trees, "trees_embedded": k_trees_embedded, "step": k_step, "fixed_ladder": k_fixed_ladder, "propagate_ladder": k_propagate_ladder,
          "ham_ladder": k_ham_ladder, "adaptive": k_adaptive, "dense_order": k_dense_order}
 
 
@@ -607,4 +653,8 @@ def cases(tier, seed):
                 out.append(("adaptive", {"problem": name, "order": order, "grid": grid, "seed": seed}))
         for name in ("rot", "euler", "nonauto"):
             out.append(("dense_order", {"problem": name, "order": order, "seed": seed}))
+    for order in (4, 6, 8):
+        out.append(("reuse", {"integrator": "fixed", "order": order, "seed": seed}))
+    for order in (5, 8):
+        out.append(("reuse", {"integrator": "adaptive", "order": order, "tol": 1e-9, "seed": seed}))
     return out
